@@ -35,7 +35,12 @@ def gen_scenario(rnd, k):
     for wf in range(1, rnd.choice([1, 2, 3]) + 1):
         nchild = rnd.choice([2, 3, 4])
         template = [(1 + wf * 10 + c, rnd.choice(["always", "always", "optional", "alt"])) for c in range(nchild)]
+        base_template = template
+        any_order = rnd.random() < 0.5      # siblings of this workflow run in a different temporal order from trace to trace
         for _ in range(rnd.choice([3, 5, 8])):
+            if any_order:                   # (same span tree up to sibling order, different PV sequence)
+                template = list(base_template)
+                rnd.shuffle(template)
             root = dict(id=nid, par=None, job=job, name=wf, ty=wf * 10, st=t0, en=t0 + 10**9, app=1)
             nid += 1
             evs.append(root)
@@ -188,7 +193,8 @@ def run(out: common.Outcome, explore: int = 0) -> None:
     out.coverage.update({
         "evaluations": len(scs), "distinct_nontrivial": len({json.dumps(s["events"], sort_keys=True) for s in scs}),
         "rule": "random multi-workflow trace sets (1-3 workflows, 3-8 traces each from a template call tree with optional / alternative / "
-                "overlapping children and grandchildren) through the real CLI: {default, custom} field-name mapping x {sync, async} "
+                "overlapping children and grandchildren; in half of the workflows the siblings run in a different temporal order from "
+                "trace to trace) through the real CLI: {default, custom} field-name mapping x {sync, async} "
                 "sequencing; non-trivial = distinct data set",
         "samples": [dict(scenario={k: v for k, v in scs[0].items() if k != "events"}, n_events=len(scs[0]["events"]),
                          otel2puml=results[0].get("A"))],
